@@ -235,7 +235,18 @@ func selfGoroID() int64 {
 // library timer site. ignore may exempt harness goroutines that are known to
 // be parked on purpose waiting for the very completion being awaited — they
 // are still required to be blocked.
-func ProveDead(d time.Duration) DeadState {
+func ProveDead(d time.Duration) DeadState { return ProveDeadOpt(d, DeadOpt{}) }
+
+// DeadOpt relaxes the proof where the relaxation is sound.
+type DeadOpt struct {
+	// TolerantPing tolerates ping goroutines parked at their ticker: a tick only sends a PING line, and with
+	// a passive peer whose writes succeed (or block) that cannot lead to a teardown. The caller must make
+	// sure no write fault is armed on the transport.
+	TolerantPing bool
+}
+
+// ProveDeadOpt is ProveDead with options.
+func ProveDeadOpt(d time.Duration, opt DeadOpt) DeadState {
 	self := selfGoroID()
 	skip := func(g *Goro) bool { return g.ID == self }
 	c1 := Census()
@@ -256,7 +267,7 @@ func ProveDead(d time.Duration) DeadState {
 		if !g.Blocked() {
 			return DeadState{Reason: fmt.Sprintf("goroutine %d is %q", g.ID, g.State)}
 		}
-		if g.AtTimerSite() {
+		if g.AtTimerSite() && !(opt.TolerantPing && g.LibRole() == "ping") {
 			return DeadState{Reason: fmt.Sprintf("goroutine %d waits at a library timer site", g.ID)}
 		}
 		if g.InLib() {
